@@ -102,7 +102,7 @@ def design_mc(module, cfg, workdir, workers=None, timeout=3600, xmx='4g', extra_
     return r
 
 
-def run_py(args, timeout=7200, env=None, stdin=None):
+def run_py(args, timeout=5400, env=None, stdin=None):
     p = subprocess.run([PY] + args, cwd=HARNESS, env=child_env(env), stdout=subprocess.PIPE,
                        stderr=subprocess.PIPE, text=True, timeout=timeout, input=stdin)
     if p.returncode != 0:
